@@ -27,6 +27,7 @@ def handle (j : Json) : Except String Json := do
   | "ft_fiber" => Driver.ftFiber j
   | "ft_project" => Driver.ftProject j
   | "nest" => Driver.nest j
+  | "nest_part" => Driver.nestPart j
   | "legality" => Driver.legality j
   | "parse_spec" => Driver.parseSpec j
   | "prec" => Driver.prec j
